@@ -16,48 +16,16 @@ variable (μ a i v da di dOmega : ℝ)
 theorem dkepVFinal_eq : dkepVFinal μ a i v da di dOmega = v + dkepDvA μ a i v da di dOmega := rfl
 theorem dkepDvA_eq : dkepDvA μ a i v da di dOmega = μ * da / (2 * v * a ^ 2) := rfl
 theorem dkepDangle_eq : dkepDangle μ a i v da di dOmega = Real.sqrt (di ^ 2 + dOmega ^ 2 * Real.sin i ^ 2) := rfl
-theorem dkepDv_eq : dkepDv μ a i v da di dOmega
-    = Real.sqrt (v ^ 2 + dkepVFinal μ a i v da di dOmega ^ 2
-        - 2 * v * dkepVFinal μ a i v da di dOmega * Real.cos (dkepDangle μ a i v da di dOmega)) := rfl
 theorem dkepDvT_eq : dkepDvT μ a i v da di dOmega
     = dkepVFinal μ a i v da di dOmega * Real.cos (dkepDangle μ a i v da di dOmega) - v := rfl
-theorem dkepRatio_eq : dkepRatio μ a i v da di dOmega
-    = |dkepDvT μ a i v da di dOmega / dkepDv μ a i v da di dOmega| := rfl
 theorem dkepDvW_eq : dkepDvW μ a i v da di dOmega
-    = if |dkepRatio μ a i v da di dOmega - 1| ≤ 1.0e-8 + 1.0e-5 * |(1 : ℝ)| then 0
-      else dkepDv μ a i v da di dOmega * Real.sqrt (1 - dkepRatio μ a i v da di dOmega ^ 2) := rfl
+    = |dkepVFinal μ a i v da di dOmega * Real.sin (dkepDangle μ a i v da di dOmega)| := rfl
 
 /-- law of cosines = Pythagoras on the two components of the rotated final velocity -/
 theorem radicand (vf θ : ℝ) :
     v ^ 2 + vf ^ 2 - 2 * v * vf * Real.cos θ = (vf * Real.cos θ - v) ^ 2 + (vf * Real.sin θ) ^ 2 := by
   have := Real.sin_sq_add_cos_sq θ
   linear_combination (-(vf ^ 2)) * this
-
-theorem dv_sq : dkepDv μ a i v da di dOmega ^ 2
-    = dkepDvT μ a i v da di dOmega ^ 2
-      + (dkepVFinal μ a i v da di dOmega * Real.sin (dkepDangle μ a i v da di dOmega)) ^ 2 := by
-  rw [dkepDv_eq, dkepDvT_eq, radicand]
-  exact Real.sq_sqrt (by positivity)
-
-theorem dv_nonneg : 0 ≤ dkepDv μ a i v da di dOmega := by
-  rw [dkepDv_eq]; exact Real.sqrt_nonneg _
-
-/-- outside the `isclose` branch and for `dv ≠ 0`: `dv_w = |v_final sin(dangle)|` -/
-theorem dvW_of_not_close (hdv : dkepDv μ a i v da di dOmega ≠ 0)
-    (hb : ¬ |dkepRatio μ a i v da di dOmega - 1| ≤ 1.0e-8 + 1.0e-5 * |(1 : ℝ)|) :
-    dkepDvW μ a i v da di dOmega
-      = |dkepVFinal μ a i v da di dOmega * Real.sin (dkepDangle μ a i v da di dOmega)| := by
-  rw [dkepDvW_eq, if_neg hb, dkepRatio_eq, sq_abs]
-  have hpos : 0 < dkepDv μ a i v da di dOmega := lt_of_le_of_ne (dv_nonneg ..) (Ne.symm hdv)
-  have hsq := dv_sq μ a i v da di dOmega
-  set D := dkepDv μ a i v da di dOmega
-  set T := dkepDvT μ a i v da di dOmega
-  set S := dkepVFinal μ a i v da di dOmega * Real.sin (dkepDangle μ a i v da di dOmega)
-  have h1 : 1 - (T / D) ^ 2 = S ^ 2 / D ^ 2 := by
-    field_simp
-    linarith
-  rw [h1, Real.sqrt_div (sq_nonneg S), Real.sqrt_sq_eq_abs, Real.sqrt_sq hpos.le]
-  field_simp
 
 /-- with no plane change requested the rotation angle is 0 and the tangential part is `dv_a` -/
 theorem dvT_pure_a : dkepDvT μ a i v da 0 0 = μ * da / (2 * v * a ^ 2) := by
